@@ -35,43 +35,59 @@ def fmt(acts):
 
 
 def line_of(sc):
-    return "%d %d ; %s" % (sc["n"], sc["nc"], fmt(sc["acts"]))
+    return "%d %s ; %s" % (sc["n"], " ".join(str(c) for c in sc["cs"]), fmt(sc["acts"]))
+
+
+# cache classes: the predefined ones (0..11; defs.ClusterCacheNames only names 0..8), user-defined and odd ids
+CLASS_POOL = list(range(12)) + [9, 10, 11, 12, 37, 1000, -1]
 
 
 def parse_line(line):
     head, _, rest = line.partition(";")
-    n, nc = [int(x) for x in head.split()]
+    hf = [int(x) for x in head.split()]
+    n, cs = hf[0], hf[1:]
     acts = []
     for part in rest.split(";"):
         w = part.split()
         if w:
             acts.append(tuple([w[0]] + [int(x) for x in w[1:]]))
-    return dict(n=n, nc=nc, acts=acts)
+    return dict(n=n, cs=cs, acts=acts)
 
 
 def corpus():
     return [
-        dict(n=4, nc=2, acts=[("ST", 2, 0), ("ST", 3, 0), ("ST", 1, 0), ("SD", 4, 1), ("PU", 1, 0), ("DE", 1), ("SS", 2, 0),
+        dict(n=4, cs=[0, 1], acts=[("ST", 2, 0), ("ST", 3, 0), ("ST", 1, 0), ("SD", 4, 1), ("PU", 1, 0), ("DE", 1), ("SS", 2, 0),
                               ("PU", 3, 0), ("FO", 2, 0, 5, 9), ("FO", 2, 0, 4, 9), ("DE", 0), ("DE", 0), ("DE", 0), ("DR", 0),
                               ("SS", 5, 1), ("PU", 5, 1)]),
-        dict(n=1, nc=1, acts=[("ST", 1, 0), ("PU", 1, 0), ("DE", 0)]),
+        dict(n=1, cs=[0], acts=[("ST", 1, 0), ("PU", 1, 0), ("DE", 0)]),
         # the CLUSTER-1 shape: two nodes, one purge, deliver everything that is ever in flight
-        dict(n=2, nc=1, acts=[("ST", 1, 0), ("ST", 2, 0), ("PU", 1, 0)] + [("DE", 0)] * 6),
-        dict(n=5, nc=2, acts=[("ST", i, c) for i in range(1, 6) for c in (0, 1)] + [("PU", 2, 1), ("PU", 4, 1), ("PU", 2, 0)]
+        dict(n=2, cs=[0], acts=[("ST", 1, 0), ("ST", 2, 0), ("PU", 1, 0)] + [("DE", 0)] * 6),
+        dict(n=5, cs=[0, 1], acts=[("ST", i, c) for i in range(1, 6) for c in (0, 1)] + [("PU", 2, 1), ("PU", 4, 1), ("PU", 2, 0)]
              + [("DE", 3), ("DE", 0), ("DE", 5), ("DE", 2)] + [("DE", 0)] * 10),
-        dict(n=3, nc=1, acts=[("ST", 2, 0), ("FO", 2, 0, 0, 7), ("ST", 2, 0), ("FO", 2, 0, 1, 7), ("ST", 2, 0), ("FO", 2, 0, 4, 7),
+        # an admin "flush all caches" on node 1 that has an OAuth JWT cache: classes without a cluster name travel too;
+        # the receivers hold other caches as well and must stay silent
+        dict(n=3, cs=[0, 1, 11], acts=[("ST", 1, 11), ("ST", 2, 0), ("ST", 2, 1), ("ST", 2, 11), ("ST", 3, 0), ("ST", 3, 11),
+                                       ("PU", 1, 0), ("PU", 1, 1), ("PU", 1, 11), ("DE", 5), ("DE", 4), ("DE", 0), ("DE", 0),
+                                       ("DE", 0), ("DE", 0), ("DE", 0), ("DE", 0)]),
+        dict(n=2, cs=[3, 9, 10, 12, 1000, -1], acts=[("ST", 2, c) for c in (3, 9, 10, 12, 1000, -1)]
+             + [("PU", 1, 12), ("DE", 0), ("PU", 1, 1000), ("DE", 0), ("PU", 1, -1), ("DE", 0), ("PU", 1, 9), ("DE", 0),
+                ("FO", 2, 77, 1, 1), ("FO", 2, 10, 1, 1)]),
+        dict(n=3, cs=[0], acts=[("ST", 2, 0), ("FO", 2, 0, 0, 7), ("ST", 2, 0), ("FO", 2, 0, 1, 7), ("ST", 2, 0), ("FO", 2, 0, 4, 7),
                               ("ST", 2, 0), ("FO", 2, 0, 5, 7), ("FO", 2, 0, 100, 7), ("FO", 2, 0, -1, 7)]),
     ]
 
 
 def gen_scenario(rng):
     n = rng.randint(1, 5)
-    nc = rng.randint(1, 3)
+    cs = sorted(set(rng.choice(CLASS_POOL) for _ in range(rng.randint(1, 4))))
     acts = []
+    # most runs start with well-populated nodes, so that a handler that touches MORE than the named cache shows
+    if rng.random() < 0.6:
+        acts += [("ST", node, c) for node in range(1, n + 1) for c in cs if rng.random() < 0.8]
     for _ in range(rng.randint(4, 30)):
         r = rng.random()
         node = rng.randint(1, n)
-        c = rng.randrange(nc)
+        c = rng.choice(cs)
         if r < 0.25:
             acts.append(("ST", node, c))
         elif r < 0.50:
@@ -85,10 +101,11 @@ def gen_scenario(rng):
         elif r < 0.93:
             acts.append(("SD", node, rng.randint(0, 1)))
         else:
-            acts.append(("FO", node, c, rng.choice([0, 1, 1, 2, 4, 5, 6, 50, -3]), rng.choice([0, 1, n, 9])))
+            fc = c if rng.random() < 0.6 else rng.choice(CLASS_POOL + [77])     # also classes nobody holds
+            acts.append(("FO", node, fc, rng.choice([0, 1, 1, 2, 4, 5, 6, 50, -3]), rng.choice([0, 1, n, 9])))
     if rng.random() < 0.5:
         acts += [("DE", 0)] * rng.randint(3, 12)      # drain: the cluster must go quiet
-    return dict(n=n, nc=nc, acts=acts)
+    return dict(n=n, cs=cs, acts=acts)
 
 
 def oracle(sc, res, report):
@@ -204,7 +221,7 @@ def enc_obs(nodes, cs, st):
 
 def run(ck):
     quick = ck.tier == "quick"
-    ck.cov["rule"] = ("clusters of 1..5 nodes (+1 joining node) x 1..3 cache classes; runs of 4..42 actions: purge on any node, "
+    ck.cov["rule"] = ("clusters of 1..5 nodes (+1 joining node) x 1..4 cache classes drawn from the predefined 0..11 (with and without a cluster name), 12, 37, 1000, -1, nodes mostly pre-populated; runs of 4..42 actions: purge on any node, "
                       "store, deliver the i-th in-flight request (any order), drop, membership active/removed, node "
                       "unreachable/reachable, forged requests with hop counts -3..50; half of the runs end by draining the "
                       "network. distinct_nontrivial = distinct runs with at least one purge that reached >= 1 peer AND at "
@@ -306,7 +323,7 @@ def run(ck):
             if res.get("error"):
                 continue
             nodes = list(range(1, sc["n"] + 2))
-            cs = list(range(sc["nc"]))
+            cs = list(sc["cs"])
             steps = ";\n  ".join("(%s, %s)" % (coq_act(a), zlist(enc_obs(nodes, cs, st))) for a, st in zip(sc["acts"], res["steps"]))
             cases.append("(%d%%nat, (%s, %s, %s, [%s]))" % (res["index"], zlist(list(range(1, sc["n"] + 1))), zlist(nodes), zlist(cs), steps))
         prelude = "\n".join([
